@@ -71,6 +71,10 @@ mk_helper!(h6, 6);
 mk_helper!(h7, 7);
 pub const HELPERS: [fn(u64, u64, u64, u64, u64) -> u64; NSLOTS] = [h0, h1, h2, h3, h4, h5, h6, h7];
 
+pub fn set_helper_id(slot: usize, id: u32) {
+    IDS.with(|t| t.borrow_mut()[slot] = id);
+}
+
 /// rsp mod 16 inside each helper when it is called from ordinary Rust code (ABI-conforming).
 pub fn calibrate_helpers() {
     for (k, h) in HELPERS.iter().enumerate() {
